@@ -1,5 +1,67 @@
 import WuffsVerif.Common.Line
-/-! Line driver for C15 — stub, not built yet. -/
-open WuffsVerif.Line
+import WuffsVerif.Model.Rac.ChunkReader
+/-! Line driver for C15 (lib/rac/chunk_reader.go).  Stateful; ops:
+  case <label> <claimedSize> <hex>  -> ok dsize=<n> | err <class>     (new ChunkReader; DecompressedSize())
+  dsize                             -> ok dsize=<n> | err <class>
+  next                              -> chunk dlo dhi cplo cphi cslo cshi ctlo cthi stag ttag codec | eof | err <class>
+  seek <d>                          -> ok | err <class>
+  valid <hex> | codec <hex> | chunk <hex> <i> <cBias> <dBias> | find <hex> <dOff> <dBias>   (rNode methods, via hooks)
+-/
+open WuffsVerif WuffsVerif.Line WuffsVerif.Rac.ChunkReader
 
-def main : IO Unit := runPure (fun _ => "bad-op")
+def showDSize (r : Reader) : String :=
+  match r.decompressedSize with
+  | .ok n => s!"ok dsize={n}"
+  | .error e => "err " ++ e.word
+
+def showNext : NextResult → String
+  | .chunk c => s!"chunk {c.dLo} {c.dHi} {c.cpLo} {c.cpHi} {c.csLo} {c.csHi} {c.ctLo} {c.ctHi} {c.sTag} {c.tTag} {c.codec}"
+  | .eof => "eof"
+  | .err e => "err " ++ e.word
+  | .spin => "spin"
+
+/-- the hooks copy the bytes into a zeroed `rNode` -/
+def nodeOf (b : ByteArray) : Node := { file := File.ofByteArray b, off := 0, size := b.size }
+
+def c15Step (st : Option Reader) (l : List String) : Option Reader × String :=
+  match l with
+  | ["case", _, claimed, hex] =>
+    match claimed.toInt?, fromHexArr hex with
+    | some c, some b =>
+      let r := openReader (File.ofByteArray b) c
+      (some r, showDSize r)
+    | _, _ => (none, "bad-op")
+  | ["dsize"] =>
+    match st with
+    | some r => (st, showDSize r)
+    | none => (st, "bad-op")
+  | ["next"] =>
+    match st with
+    | some r => let (r', o) := r.next; (some r', showNext o)
+    | none => (st, "bad-op")
+  | ["seek", d] =>
+    match st, d.toInt? with
+    | some r, some d =>
+      let (r', e) := r.seek d
+      (some r', match e with | none => "ok" | some e => "err " ++ e.word)
+    | _, _ => (st, "bad-op")
+  | ["valid", hex] =>
+    match fromHexArr hex with
+    | some b => (st, toString (nodeOf b).valid)
+    | none => (st, "bad-op")
+  | ["codec", hex] =>
+    match fromHexArr hex with
+    | some b => (st, toString (nodeOf b).codec)
+    | none => (st, "bad-op")
+  | ["chunk", hex, i, cb, db] =>
+    match fromHexArr hex, i.toNat?, cb.toNat?, db.toNat? with
+    | some b, some i, some cb, some db => (st, showNext (.chunk ((nodeOf b).chunk i cb db)))
+    | _, _, _, _ => (st, "bad-op")
+  | ["find", hex, d, db] =>
+    match fromHexArr hex, d.toNat?, db.toNat? with
+    | some b, some d, some db =>
+      (st, match (nodeOf b).findChunkContaining d db with | some i => toString i | none => "panic")
+    | _, _, _ => (st, "bad-op")
+  | _ => (st, "bad-op")
+
+def main : IO Unit := run (none : Option Reader) c15Step
